@@ -639,6 +639,10 @@ class M:
             pass
         tempfile.tempdir = self.old_tempdir
         shutil.rmtree(self.scratch, ignore_errors=True)
+        try:
+            os.rmdir(os.path.dirname(self.scratch))
+        except OSError:
+            pass
 
 
 def run(case):
